@@ -1,10 +1,82 @@
-/* genx3.c -- generators: pump, inotify, timer populations */
+/* genx3.c -- generators: timer populations, pump, inotify */
 #define _GNU_SOURCE
 #include <string.h>
 #include "hz.h"
 
+int gx_R(int n);
+int gx_P(int pct);
+int gx_add_obj(int kind, int owner);
+struct pop *gx_add_op(int ctx, int ctxid, int when, int op, int64_t d, int64_t a, int64_t b, int64_t c);
+void gx_add_fault(int site, int tid, int k, int sticky, int err, int mode, int64_t param);
+void gx_common_cfg(int n);
+void gx_absent(int pct);
+void gx_eintr(int nloops, int pct);
+int64_t gx_delta(void);
+uint64_t gx_u64(void);
+#define R gx_R
+#define P gx_P
+#define SEC 1000000000LL
+#define MS 1000000LL
+static struct plan *G;
+
+/* ---- C05: timer populations ---------------------------------------------------------------- */
+static void gen_timers(int tier)
+{
+	int big = tier > 0, ctl, steps, k, pop = 0;
+	int target_hi = big ? (P(50) ? 17000 + R(3000) : 200 + R(400)) : (P(85) ? 140 + R(260) : 16500 + R(600));
+	int64_t span = (int64_t[]){ 1000, MS, 50 * MS, SEC, 30 * SEC }[R(5)];
+
+	gx_common_cfg(1);
+	G->cfg.yield_cost_ns = P(85) ? 0 : 1;
+	G->cfg.max_steps = 3000000;
+	G->nthr = 1;
+	G->thr[0].kind = 'L';
+	G->thr[0].cycles = P(10) ? 2 : 1;
+	G->thr[0].deinit = !P(15);
+	G->thr[0].exitmode = P(20);
+	G->thr[0].td = 1;
+	G->bulk_n = target_hi;
+
+	/* the controller: a timer that performs one population step per firing and re-arms itself */
+	ctl = gx_add_obj(K_TIMER, 0);
+	G->obj[ctl].p[0] = 1;
+	gx_add_op(CTX_SETUP, 0, 0, OP_BULK, 0, P(50) ? target_hi / 2 : 10 + R(100), span, gx_u64() % 100000);
+	pop = 100;
+	if (P(30))
+		gx_add_op(CTX_SETUP, 0, 0, OP_BULK, 2, 1 + R(20), 0, gx_u64() % 100000);
+	gx_add_op(CTX_SETUP, 0, 0, OP_REG, ctl, 1, (int64_t[]){ 0, 1, 1000, MS, span / 8 + 1, span / 2 + 1, span }[R(7)], 0);
+	steps = 6 + R(big ? 30 : 18);
+	for (k = 1; k <= steps; k++) {
+		int r = R(100);
+		if (r < 45) {
+			int n = P(40) ? target_hi / 3 + R(target_hi / 3 + 1) : 1 + R(200);
+			gx_add_op(CTX_CB, ctl, k, OP_BULK, 0, n, P(20) ? 1 : span, gx_u64() % 100000);
+			pop += n;
+		} else if (r < 85) {
+			int n = P(40) ? target_hi / 3 + R(target_hi / 2 + 1) : 1 + R(200);
+			gx_add_op(CTX_CB, ctl, k, OP_BULK, 1, n, R(5), gx_u64() % 100000);
+		} else {
+			gx_add_op(CTX_CB, ctl, k, OP_BULK, 2, 1 + R(40), 0, gx_u64() % 100000);
+		}
+		if (P(25))
+			gx_add_op(CTX_CB, ctl, k, OP_BULK, 1, 1 + R(3), 3, gx_u64() % 100000);	/* root victims */
+		if (P(10))
+			gx_add_op(CTX_CB, ctl, k, OP_WORK, 0, span / 3 + 1, 0, 0);
+		gx_add_op(CTX_CB, ctl, k, OP_REG, ctl, 1, (int64_t[]){ 0, 1, 1000, MS, span / 8 + 1, span / 2 + 1, span, 2 * span }[R(8)], 0);
+	}
+	(void)pop;
+	gx_absent(8);
+	gx_eintr(1, 15);
+}
+
+int gen_ext4(struct plan *p, const char *scenario, const char *prop, int tier);
+
 int gen_ext3(struct plan *p, const char *scenario, const char *prop, int tier)
 {
-	(void)p; (void)scenario; (void)prop; (void)tier;
-	return -1;
+	G = p;
+	if (!strcmp(scenario, "timers")) {
+		gen_timers(tier);
+		return 0;
+	}
+	return gen_ext4(p, scenario, prop, tier);
 }
